@@ -56,6 +56,7 @@ Qed.
 
 Section Tie.
   Context {AF : AField}.
+  Add Field FTieL : Ffield.
   Local Notation "0" := zero. Local Notation "1" := one.
   Local Infix "+" := add. Local Infix "*" := mul. Local Infix "-" := sub.
   Local Notation "- x" := (opp x).
@@ -69,7 +70,7 @@ Section Tie.
     unfold limb_bits. change 64%Z with (Z.of_nat 64). rewrite zrange_seq, !fold_left_map.
     match goal with |- ?l = (let '(_, _) := ?r in _) => replace r with l; [destruct l; reflexivity|] end.
     apply fold_left_ext. intros [acc' ins'] i.
-    rewrite bit_test. reflexivity.
+    rewrite bit_test. first [reflexivity | destruct (Z.testbit _ _); f_equal; ring].
   Qed.
 
   Lemma sq_fold (l : list Z) b : fold_left (fun (b : F) (_ : Z) => b * b) l b = sq_n (length l) b.
@@ -80,7 +81,6 @@ Section Tie.
   Proof.
     intro HS. unfold G.min_our_sqrt, our_sqrt. cbv zeta. rewrite tie_min_pow_le_limbs.
     rewrite (zrange_2 S HS), <- map_rev, fold_left_map.
-    set (z0 := pow_le_limbs x tm * x). set (t0 := pow_le_limbs x tm * pow_le_limbs x tm * x).
     pose (R := fun (g : F * F * F * F) (m : F * F * F * F) =>
                  let '(b, z, c, t) := g in let '(z', t', b', c') := m in b = b' /\ z = z' /\ c = c' /\ t = t').
     lazymatch goal with |- ?L = ?Rr =>
@@ -97,14 +97,34 @@ Section Tie.
       unfold ts_step. cbv beta iota zeta.
       rewrite sq_fold, zrange_length.
       replace (Z.to_nat (Z.of_nat n - 2 + 1 - 1)) with (n - 2)%nat by lia.
-      repeat split.
-    - cbn. repeat split.
+      repeat split;
+        repeat (match goal with |- context [feqb ?a ?b] => destruct (feqb a b) end; cbn [negb]);
+        first [reflexivity | ring].
+    - unfold R. repeat split; first [reflexivity | ring].
   Qed.
+
+  Ltac unify1 f :=
+    repeat match goal with
+    | |- context [f ?a] =>
+        match goal with
+        | |- context [f ?b] => lazymatch a with b => fail | _ => replace a with b by ring end
+        end
+    end.
+  Ltac unify_pow :=
+    repeat match goal with
+    | |- context [pow_le_limbs ?a ?l] =>
+        match goal with
+        | |- context [pow_le_limbs ?b l] => lazymatch a with b => fail | _ => replace a with b by ring end
+        end
+    end.
 
   Lemma tie_min_sqrt_ratio (S : nat) tm mm qnr zeta num den : (1 <= S)%nat ->
     G.min_sqrt_ratio zeta (Z.of_nat S) tm mm qnr num den = min_sqrt_ratio tm mm qnr zeta S num den.
   Proof.
     intro HS. unfold G.min_sqrt_ratio, min_sqrt_ratio. cbv zeta.
-    rewrite !tie_min_pow_le_limbs, !(tie_min_our_sqrt S) by exact HS. reflexivity.
+    rewrite !tie_min_pow_le_limbs, !(tie_min_our_sqrt S) by exact HS.
+    first [ reflexivity
+          | unify_pow; unify1 (our_sqrt tm qnr S);
+            repeat match goal with |- context [feqb ?a ?b] => destruct (feqb a b) end; reflexivity ].
   Qed.
 End Tie.
